@@ -376,6 +376,23 @@ func (e *Enc) loopModifies(li *loopInfo) (ws writeSets, all bool) {
 						ws.get(n, srt)
 					}
 				}
+			case *ssa.MakeClosure:
+				if e.fc != nil {
+					for _, h := range e.fc.Hooks {
+						if h.Callee == "closure:"+x.Fn.Name() {
+							for _, st := range h.Stmts {
+								if st.Kind == "assign" {
+									if g, ok := e.prog.cs.Ghosts[st.Target]; ok {
+										if srt, err := ghostSort(g.Type); err == nil {
+											ws.whole("G$"+st.Target, srt)
+										}
+									}
+								}
+							}
+						}
+					}
+				}
+				ws.get("alloc", SInt)
 			case *ssa.MakeSlice:
 				et := x.Type().Underlying().(*types.Slice).Elem()
 				ws.get("E$"+e.tr.typeID(et), ArraySort(SInt, ArraySort(SInt, e.tr.sortOf(et))))
